@@ -12,6 +12,8 @@ Everything is read from the SOURCE TEXT (CPython `ast`), nothing is imported:
   EXCEPTION_PLACEHOLDER (such a message is only fit for users after that handler substituted it);
 * every `warn(..., X)` / `issue_warning(cls=X, …)` statement naming a class literally;
 * every explicit `exception_cls=X` keyword at a call site (the classes the hint utilities are told to raise);
+* every executed mention of EXCEPTION_PLACEHOLDER inside a function (file, function, lexically under such a handler) and the
+  functions that own such a handler;
 * the family each public entry point documents (door functions: from the `Raises` sections of their docstrings).
 """
 from __future__ import annotations
@@ -91,7 +93,7 @@ def _param_default(func, name):
 
 def sites(all_names: set[str]):
     """(raise sites, warn sites, exception_cls keyword sites) over beartype/**/*.py"""
-    raises, warns, kws = [], [], []
+    raises, warns, kws, uses, handlers = [], [], [], [], []
     for f in sorted((REPO / 'beartype').rglob('*.py')):
         rel = str(f.relative_to(REPO))
         tree = ast.parse(f.read_text())
@@ -117,15 +119,31 @@ def sites(all_names: set[str]):
                 callee = n.func.id if isinstance(n.func, ast.Name) else (n.func.attr if isinstance(n.func, ast.Attribute) else '')
                 func, _ = _enclosing(n)
                 fname = func.name if func else '<module>'
-                if callee in ('warn', 'issue_warning'):
-                    cands = [k.value for k in n.keywords if k.arg in ('cls', 'category')] + (n.args[1:2] if callee == 'warn' else [])
+                if callee in ('warn', 'issue_warning', 'warn_explicit'):
+                    cands = [k.value for k in n.keywords if k.arg in ('cls', 'category', 'warning_cls')] + \
+                        (n.args[1:2] if callee in ('warn', 'issue_warning') else [])
                     for c in cands:
                         if isinstance(c, ast.Name):
                             warns.append((rel, fname, c.id, n.lineno))
                 for k in n.keywords:
                     if k.arg in EXC_PARAM_NAMES and isinstance(k.value, ast.Name) and k.value.id not in EXC_PARAM_NAMES:
                         kws.append((rel, fname, callee, k.value.id, n.lineno))
-    return raises, warns, kws
+                if callee == 'reraise_exception_placeholder' and fname != 'reraise_exception_placeholder':
+                    p, in_handler = n, False
+                    while hasattr(p, '_p'):
+                        in_handler = in_handler or isinstance(p, ast.ExceptHandler)
+                        p = p._p
+                    if in_handler and (rel, fname) not in handlers:
+                        handlers.append((rel, fname))
+            elif isinstance(n, ast.Name) and n.id == 'EXCEPTION_PLACEHOLDER' and isinstance(n.ctx, ast.Load):
+                p, in_default = n, False
+                while hasattr(p, '_p'):
+                    in_default = in_default or isinstance(p, ast.arguments)
+                    p = p._p
+                func, wrapped = _enclosing(n)
+                if func is not None and not in_default:
+                    uses.append((rel, func.name, wrapped, n.lineno))
+    return raises, warns, kws, uses, handlers
 
 
 def door_documented():
@@ -163,15 +181,15 @@ def extract():
     exc, wrn = hierarchy()
     enames = [n for n, _, _ in exc]
     wnames = [n for n, _, _ in wrn]
-    raises, warns, kws = sites(set(enames) | set(wnames))
+    raises, warns, kws, uses, handlers = sites(set(enames) | set(wnames))
     door = door_documented()
     text = ['import BearVerif.Core.Roar',
             '/- GENERATED on every run by harness/extract/roar.py from beartype/roar/_roarexc.py, _roarwarn.py, __init__.py',
             '   and an AST scan of every `raise`/`warn` statement under beartype/. Do not edit. -/',
             'namespace BearVerif.Extracted', 'open BearVerif.Roar', '',
             '/-- exception classes: name, bases inside the table (indices), foreign bases, re-exported by beartype.roar -/',
-            'def roarExc : List ClassRow := ' + _table(exc, enames), '',
-            'def roarWarn : List ClassRow := ' + _table(wrn, wnames), '',
+            'def roarExc : Table := ' + _table(exc, enames), '',
+            'def roarWarn : Table := ' + _table(wrn, wnames), '',
             '/-- `raise X(…)` statements: file, function, class, how named, default of the class parameter, inside a',
             '    try whose handler calls reraise_exception_placeholder, message mentions EXCEPTION_PLACEHOLDER -/',
             'def roarRaiseSites : List RaiseSite := [']
@@ -183,9 +201,15 @@ def extract():
              '/-- explicit `exception_cls=X` keywords: file, function, callee, class -/',
              'def roarExcKeywords : List (String × String × String × String) := [' +
              ',\n  '.join(f'({_s(f)}, {_s(fn)}, {_s(cal)}, {_s(c)})' for f, fn, cal, c, _ in kws) + ']', '',
+             '/-- executed mentions of EXCEPTION_PLACEHOLDER: file, function, lexically under a reraise handler -/',
+             'def roarPlaceholderUses : List (String × String × Bool) := [' +
+             ',\n  '.join(f'({_s(f)}, {_s(fn)}, {_b(w)})' for f, fn, w, _ in uses) + ']', '',
+             '/-- functions owning an `except … : reraise_exception_placeholder(…)` handler -/',
+             'def roarReraiseHandlers : List (String × String) := [' +
+             ', '.join(f'({_s(f)}, {_s(fn)})' for f, fn in handlers) + ']', '',
              '/-- classes documented in the `Raises` sections of the door functions -/',
              'def roarDoorDocumented : List (String × List String) := [' +
              ', '.join(f'({_s(k)}, [{", ".join(_s(c) for c in v)}])' for k, v in sorted(door.items())) + ']', '',
              'end BearVerif.Extracted', '']
     write_if_changed(LEAN / 'BearVerif/Extracted/Roar.lean', '\n'.join(text))
-    return {'exc': exc, 'warn': wrn, 'raises': raises, 'warns': warns, 'kws': kws, 'door': door}
+    return {'exc': exc, 'warn': wrn, 'raises': raises, 'warns': warns, 'kws': kws, 'door': door, 'uses': uses, 'handlers': handlers}
